@@ -319,6 +319,80 @@ theorem c11_stats_step (env : Env J S C) (cfg : Cfg) (st st' : Stats) (raw : Tex
   · rw [hx] at h; simp at h; obtain ⟨rfl, rfl⟩ := h
     exact ⟨rfl, by simp [hxv], fun s => bumpAll_ge _ _ s⟩
 
+/-! ## The coercion helper cannot make values up -/
+
+/-- `_coerce_types_tracked`, for every behaviour of the Python primitives it uses (`isinstance`, `dict()`,
+    `int()`, `float()`, `str()`, the bool literal sets, `split`), every schema and every parsed value: a list is
+    returned untouched; a scalar makes `dict()` raise (which the cascade catches); for a dict the result has the same
+    keys in the same order, every value is the old value of that key or a conversion of it by an entry of the
+    coercion table that the schema's annotation for that key selects, and every label in `coercions_applied` names
+    a conversion that was applied (at most one per schema field). -/
+theorem c11_coercion_is_conservative {K V : Type} [DecidableEq K] (c : CEnv J K V) (j : J) :
+    (c.isList j = true ∧ coerceModel c j = .ok (j, [])) ∨
+    (c.isList j = false ∧ ∃ e, c.toDict j = .raise e ∧ coerceModel c j = .raise e) ∨
+    (c.isList j = false ∧ ∃ d out ls, c.toDict j = .ok d ∧ coerceModel c j = .ok (c.ofDict out, ls) ∧
+      out.map (·.1) = d.map (·.1) ∧ (∀ e ∈ out, ∃ v, (e.1, v) ∈ d ∧ FromConv c e.1 v e.2) ∧
+      ls.length ≤ c.fields.length ∧ ∀ l ∈ ls, LabelOk c l) :=
+  coerceModel_spec c j
+
+/-- Put together for the LENIENT strategy: when the environment's coercion helper is the modelled one, a fold
+    that is valid through LENIENT validated a value `d` that is either a JSON list present in the raw text, taken
+    as it is, or a dict with exactly the keys of a JSON object `e` present in the raw text (the whole stripped text
+    or an extraction match) whose every value is `e`'s value for that key or a table conversion of it. -/
+theorem c11_lenient_values_come_from_the_text {K V : Type} [DecidableEq K] (env : Env J S (K × Conv))
+    (c : CEnv J K V) (hco : env.coerce = coerceModel c) (cfg : Cfg) (st st' : Stats) (raw : Text)
+    (call : List Strategy) (r : FoldedX S (K × Conv))
+    (h : (foldX env cfg st raw call).res = .ok (st', r)) (hv : r.valid = true)
+    (hs : r.strategyUsed = some .lenient) :
+    ∃ e d v, Present env raw e ∧ env.isNone e = false ∧ r.struct = some v ∧ env.validate d = .ok v ∧
+      ((c.isList e = true ∧ d = e) ∨
+       (∃ items out, c.toDict e = .ok items ∧ d = c.ofDict out ∧ out.map (·.1) = items.map (·.1) ∧
+          ∀ x ∈ out, ∃ w, (x.1, w) ∈ items ∧ FromConv c x.1 w x.2)) := by
+  obtain ⟨s, _, d, v, hstruct, hval, hder, hused, _, _⟩ :=
+    c11_valid_is_validated_enhanced env cfg st st' raw call r h hv
+  rw [hs] at hused
+  cases hused
+  obtain ⟨e, cs, hpres, hnone, hcoerce⟩ := hder
+  rw [hco] at hcoerce
+  refine ⟨e, d, v, hpres, hnone, hstruct, hval, ?_⟩
+  rcases coerceModel_spec c e with ⟨hl, heq⟩ | ⟨_, ex, _, heq⟩ | ⟨_, items, out, ls, hd, heq, hkeys, hvals, _, _⟩
+  · rw [heq] at hcoerce
+    cases hcoerce
+    exact Or.inl ⟨hl, rfl⟩
+  · rw [heq] at hcoerce; cases hcoerce
+  · rw [heq] at hcoerce
+    cases hcoerce
+    exact Or.inr ⟨items, out, hd, rfl, hkeys, hvals⟩
+
+/-- non-vacuity: the JSON object `5` = `{k0: v10}` where `v10` is the string "4"; field `k0` is annotated `int`;
+    `int(v10)` is `v11`; the dict `{k0: v11}` is the JSON value `6`, which validates to structure `7`, while `5`
+    itself does not validate. -/
+def toyC : CEnv Nat Nat Nat where
+  isList _ := false
+  toDict j := if j = 5 then .ok [(0, 10)] else .raise (.other 2)
+  ofDict l := if l = [(0, 11)] then 6 else 0
+  fields := [(0, .int)]
+  isStr v := v == 10
+  isNum _ := false
+  intOf v := if v = 10 then some 11 else none
+  floatOf _ := none
+  strOf v := v
+  boolOf _ := none
+  splitOf v := v
+
+def toyEnvL : Env Nat Nat (Nat × Conv) where
+  loads t := if t = [123, 125] then .ok 5 else .raise .jsonDecode
+  isNone _ := false
+  findall _ _ := .ok []
+  sub _ t := .ok t
+  validate d := if d = 6 then .ok 7 else .raise .validation
+  coerce := coerceModel toyC
+
+example : toyEnvL.coerce = coerceModel toyC ∧
+    ∃ st' r, (foldX toyEnvL ⟨[]⟩ Stats.zero rawClean []).res = .ok (st', r) ∧ r.valid = true ∧
+      r.strategyUsed = some .lenient ∧ r.struct = some 7 ∧ r.coercions = [.coerced (0, .strToInt)] :=
+  ⟨rfl, _, _, rfl, rfl, rfl, rfl, rfl⟩
+
 /-! ## The tables and constants the model uses are the ones in the source (regenerated every run) -/
 
 /-- The extraction table, the repair table, the default strategy order, the members of `FoldingStrategy` and
